@@ -30,6 +30,9 @@ def asg(tgt, e): return {"k": "asg", "tgt": tgt, "e": e}
 
 def decl(names, e, const=False):
     return {"k": "decl", "names": [names] if isinstance(names, str) else list(names), "const": const, "e": e}
+def declblock(*pairs):
+    """令： with one line per (names, e, const)"""
+    return {"k": "declblock", "pairs": [{"k": "decl", "names": [n] if isinstance(n, str) else list(n), "const": bool(c), "e": e} for n, e, c in pairs]}
 def ex(e): return {"k": "expr", "e": e}
 def disp(*args): return ex(call("@display", *args))
 def mark(m): return disp(s(m))
